@@ -479,11 +479,14 @@ pub async fn check_dyngroups(qs: &QueryServer, d: &Dump) -> Vec<Finding> {
             Err(_) => continue,
         };
         let se = SearchEvent::new_internal(fv);
+        // candidates are ordinary entries: dynamic groups as members of dynamic groups (itself
+        // included) are not judged, the statement speaks of candidate entries and their attributes
+        let is_dyn = |x: &Uuid| d.entries.get(x).map(|e| srv::dump_classes(e).iter().any(|c| c == "dyngroup")).unwrap_or(false);
         let want: BTreeSet<Uuid> = match r.search(&se) {
-            Ok(es) => es.iter().map(|x| x.get_uuid()).filter(|x| x != u).collect(),
+            Ok(es) => es.iter().map(|x| x.get_uuid()).filter(|x| !is_dyn(x)).collect(),
             Err(_) => continue,
         };
-        let got_wo_self: BTreeSet<Uuid> = got.iter().cloned().filter(|x| x != u).collect();
+        let got_wo_self: BTreeSet<Uuid> = got.iter().cloned().filter(|x| !is_dyn(x)).collect();
         if want != got_wo_self {
             let extra: Vec<_> = got_wo_self.difference(&want).collect();
             let missing: Vec<_> = want.difference(&got_wo_self).collect();
